@@ -162,6 +162,9 @@ def run(prop, tier, seed):
     mrun = C.run_model(["comp 1 %d %d %s %s" % (lv, 4000 if quick else 8000, G.cps(cases[k][1]), G.cps(cases[k][2])) for k, lv in jobs])
     corr = []
     for (k, lv), src, mi, mr in zip(jobs, srcs, mir, mrun):
+        if C.timed_out(src, mi, mr):
+            hist["evaluator-timeout-skipped"] += 1
+            continue
         if not src.startswith("src:"):
             if mi != "none":
                 corr.append((k, lv, "model compiles, implementation does not", src, mi))
@@ -186,6 +189,9 @@ def run(prop, tier, seed):
         sir = C.run_model(["compir 1 %d %s" % (lv, G.cps(p)) for p in sprogs])
         for p, src, mi in zip(sprogs, ssrc, sir):
             hist["structure-only"] += 1
+            if C.timed_out(src, mi):
+                hist["evaluator-timeout-skipped"] += 1
+                continue
             if not src.startswith("src:") or mi == "none":
                 if src.startswith("src:") != (mi != "none"):
                     corr.append((-1, lv, "compiles on one side only: " + p, src[:60], mi[:60]))
